@@ -150,11 +150,13 @@ pub struct E2e {
     limit: i64,          // -1 none, otherwise delta code: 0 => T-1, 1 => T, 2 => T+1, 3 => 0, 4 => u64::MAX
     ctx_pos: Option<usize>, // crash context on the spin thread with this index
     sanitize: bool,
+    /// the first two spin threads have their stacks in mappings BELOW the executable (fixed low addresses)
+    low: bool,
 }
 
 impl E2e {
     fn to_json(&self) -> Value {
-        json!({"e2e": {"n": self.n, "offsets": self.offsets, "limit": self.limit, "ctx_pos": self.ctx_pos, "sanitize": self.sanitize}})
+        json!({"e2e": {"n": self.n, "offsets": self.offsets, "limit": self.limit, "ctx_pos": self.ctx_pos, "sanitize": self.sanitize, "low": self.low}})
     }
     fn from_json(v: &Value) -> Option<E2e> {
         let e = v.get("e2e")?;
@@ -164,6 +166,7 @@ impl E2e {
             limit: e.get("limit")?.as_i64()?,
             ctx_pos: e.get("ctx_pos").and_then(|x| x.as_u64()).map(|x| x as usize),
             sanitize: e.get("sanitize")?.as_bool()?,
+            low: e.get("low").and_then(|x| x.as_bool()).unwrap_or(false),
         })
     }
 }
@@ -179,7 +182,11 @@ fn run_e2e(c: &E2e) -> Vec<(String, String)> {
     let mut sps = Vec::new();
     let mut regions = Vec::new();
     for i in 0..c.n.saturating_sub(1) {
-        let region = p.pattern(3, "hole", "rw");
+        let region = if c.low && i < 2 {
+            p.cmd(&format!("pattern_at {:#x} 3 rw", 0x2000_0000u64 + 0x10_0000 * i as u64)).ok().and_then(|r| r.first().map(|a| u64::from_str_radix(a.trim_start_matches("0x"), 16).unwrap_or(0))).filter(|a| *a != 0).unwrap_or_else(|| p.pattern(3, "hole", "rw"))
+        } else {
+            p.pattern(3, "hole", "rw")
+        };
         let off = c.offsets[i % c.offsets.len()];
         let rsp = region + PAGE + off;
         let t = p.mkthread(Kind::Spin);
@@ -300,18 +307,24 @@ fn e2e_cases(thorough: bool) -> Vec<E2e> {
                 // place the interesting offsets at the end of the thread list
                 let nspin = n.saturating_sub(1).max(1);
                 let offsets: Vec<u64> = (0..nspin).map(|i| offs[(nspin - 1 - i) % offs.len()]).collect();
-                v.push(E2e { n, offsets, limit, ctx_pos: None, sanitize: false });
+                v.push(E2e { n, offsets, limit, ctx_pos: None, sanitize: false, low: false });
             }
         }
     }
     // crash context on a thread at position >= 20, with a limit that shortens the others
     for off in [8u64, 2048, 3000, 4088] {
-        v.push(E2e { n: 23, offsets: vec![off], limit: 0, ctx_pos: Some(20), sanitize: false });
-        v.push(E2e { n: 23, offsets: vec![off], limit: 3, ctx_pos: Some(21), sanitize: true });
+        v.push(E2e { n: 23, offsets: vec![off], limit: 0, ctx_pos: Some(20), sanitize: false, low: false });
+        v.push(E2e { n: 23, offsets: vec![off], limit: 3, ctx_pos: Some(21), sanitize: true, low: false });
+    }
+    // stacks in mappings below the executable (the dumper moves the entry-point mapping to the front of its list)
+    for off in [0u64, 8, 2048, 4088] {
+        v.push(E2e { n: 4, offsets: vec![off], limit: -1, ctx_pos: None, sanitize: false, low: true });
+        v.push(E2e { n: 4, offsets: vec![off], limit: -1, ctx_pos: Some(0), sanitize: false, low: true });
+        v.push(E2e { n: 23, offsets: vec![off], limit: 0, ctx_pos: None, sanitize: false, low: true });
     }
     // sanitize + limit (the sanitiser sees a copy shorter than the sp offset)
     for off in [2047u64, 2048, 2056, 4095] {
-        v.push(E2e { n: 22, offsets: vec![off], limit: 0, ctx_pos: None, sanitize: true });
+        v.push(E2e { n: 22, offsets: vec![off], limit: 0, ctx_pos: None, sanitize: true, low: false });
     }
     if thorough {
         // every in-page offset 0..4095 at a position >= 20: N = 64 gives 43 such threads per puppet
@@ -323,10 +336,10 @@ fn e2e_cases(thorough: bool) -> Vec<E2e> {
             while offsets.len() < 63 {
                 offsets.push(8);
             }
-            v.push(E2e { n: 64, offsets: offsets.clone(), limit: 0, ctx_pos: None, sanitize: false });
-            v.push(E2e { n: 64, offsets, limit: -1, ctx_pos: None, sanitize: false });
+            v.push(E2e { n: 64, offsets: offsets.clone(), limit: 0, ctx_pos: None, sanitize: false, low: false });
+            v.push(E2e { n: 64, offsets, limit: -1, ctx_pos: None, sanitize: false, low: false });
         }
-        v.push(E2e { n: 40, offsets: vec![8, 2048, 4088], limit: 3, ctx_pos: Some(30), sanitize: false });
+        v.push(E2e { n: 40, offsets: vec![8, 2048, 4088], limit: 3, ctx_pos: Some(30), sanitize: false, low: false });
     }
     v
 }
